@@ -680,3 +680,52 @@ pub fn many_pieces(ctx: &Ctx, rep: &mut Report, unit: &mut usize) {
     rep.count("many_piece_cases", cases);
     rep.note("many pieces: inputs of 1100 x 300, 1500 x 300, 1100 x 70 and 2100 x 1 bytes fed piece by piece (all borrowed, or alternately borrowed and copied), a stuff sequence straddling every seventh piece boundary, nothing drained before finish (output of well over 1024 slices); the canonical stream back through the decoder in as many pieces".to_string());
 }
+
+/// Chunk counts around powers of two: (FE FD)^n closes n chunks (plus the last one), for n around
+/// 2^8 and 2^16 - counters of chunks, of headers or of placeholders narrower than usize live there.
+pub fn dense_chunks(ctx: &Ctx, rep: &mut Report, unit: &mut usize) {
+    let prop = ctx.prop.clone();
+    let mut cases = 0u64;
+    for n in [255usize, 256, 257, 65_535, 65_536, 65_537] {
+        for (mi, piece_len) in [(0usize, usize::MAX), (1, 4096), (2, 3)] {
+            if piece_len == 3 && n > 1000 {
+                continue;
+            }
+            let u = *unit;
+            *unit += 1;
+            if !ctx.owns(u) {
+                continue;
+            }
+            let mut input: Vec<u8> = Vec::with_capacity(2 * n + 1);
+            for _ in 0..n {
+                input.extend_from_slice(&[0xFE, 0xFD]);
+            }
+            input.push(0x41);
+            let mut pieces: Vec<Piece> = Vec::new();
+            let mut at = 0usize;
+            while at < input.len() {
+                let hi = at.saturating_add(piece_len).min(input.len());
+                // drain everything after each call in the multi-call forms (the consumer keeps up)
+                pieces.push(Piece { lo: at, hi, m: if mi == 0 { M::Borrow } else { M::Copy }, d: if mi == 0 { D::None } else { D::ConsumeAll } });
+                at = hi;
+            }
+            cases += 1;
+            rep.evaluations += 1;
+            rep.transitions += pieces.len() as u64;
+            let mut obs = Obs::default();
+            if let Err(e) = enc_case(&input, &pieces, None, false, &mut obs) {
+                let again = enc_case(&input, &pieces, None, false, &mut Obs::default());
+                record(rep, &prop, &CaseId { side: "enc", limits: None, data: &input, pieces: &pieces, prefill: false }, &e, again.as_ref().err() == Some(&e));
+                continue;
+            }
+            let stream = stream_for(&input, None);
+            let dp = [Piece { lo: 0, hi: stream.len(), m: M::Borrow, d: D::None }];
+            if let Err(e) = dec_case_expect(&stream, &dp, None, false, &mut obs, Some(&input)) {
+                let again = dec_case_expect(&stream, &dp, None, false, &mut Obs::default(), Some(&input));
+                record(rep, &prop, &CaseId { side: "dec", limits: None, data: &stream, pieces: &dp, prefill: false }, &e, again.as_ref().err() == Some(&e));
+            }
+        }
+    }
+    rep.count("dense_chunk_cases", cases);
+    rep.note("dense chunks: (FE FD)^n . 41 for n = 255, 256, 257, 65 535, 65 536, 65 537 (that many chunks closed by one encoder), in one borrowed call, in copied 4096-byte calls drained after each, and (small n) in 3-byte calls; the canonical stream decoded back".to_string());
+}
